@@ -852,6 +852,9 @@ func (e *FEnc) ret(st *State, x *ssa.Return) {
 		if c.Kind != "ensures" && c.Kind != "atreturn" {
 			continue
 		}
+		if c.Trusted {
+			continue // assumed at call sites (listed under trusted_base), not an obligation of the body
+		}
 		if !c.hasProp(e.prop) && e.prop != "" {
 			continue
 		}
